@@ -41,6 +41,12 @@ CLAIMED = {
  "C20": ("TLA+ monitor specification (Ranges.tla) evaluated by TLC on every distinct range recorded from the real analysis over the Workspace.tla workspaces",
          "the sweep harness records every range any of 15 query kinds reports at every token boundary of every file of the C10 workspaces (incl. non-ASCII and broken ones) with the facts the monitor needs (file length, character-boundary bits, token tiling from the lexer, enclosing full range); TLC evaluates RangeOK on each record: inside the named file of the workspace, on character boundaries, focus inside full range, name-like results exactly one whole token.",
          "boundary/token facts are computed by the harness with the repository's own lexer", "4 C20"),
+ "C04": ("TLA+ reference grammar of the supported surface syntax as a pushdown generator emitting tokens plus tree brackets (GleamSyn.tla), checked by TLC; every generated program replayed into the real parser and compared structurally and through the typed accessors",
+         "TLC enumerates all expressions with up to three operator applications (every operator pair and triple over the precedence levels, prefix and postfix), every production of the grammar in every slot within the BFS budget, and simulates larger files; each program is rendered in three layouts (single spaces, no spaces around punctuation, seeded whitespace/newlines/comments), parsed by the real parser and must have no syntax error, exactly the specification's bracket structure over the grouping node kinds, and typed accessors (lhs/rhs/op, func/arguments, label/value, pattern/annotation/body, name/param_list/return_type/body, patterns/body, subjects/clauses ...) that agree with source positions.",
+         "the grammar and its tree shapes are a transcription (no Gleam compiler in the sandbox); productions that trigger recorded findings are masked in the main run and re-enabled one at a time", "4 C04, 3.3"),
+ "C08": ("explicit TLA+ decision-table specification (RenameGate.tla), TLC exhaustive enumeration with per-action coverage, spec->impl replay at the ide API and black-box over LSP",
+         "TLC enumerates the whole RenameGate decision table (101 symbol occurrences of 18 kinds x 3 package localities x 157 candidate names of 39 lexical classes, names defined character by character) and checks PrepareAccept <=> exists valid name: RenameAccept, no edit outside local packages and sufficiency of each refusal reason on every state; every row is replayed into ide::Analysis::prepare_rename and rename on a workspace with a local, a path-dependency and a build/packages package and compared with the predicted answer, edit locality, whole-token edits and prepare/rename agreement; 10 rows run through the real server over LSP.",
+         "exhaustive over the finite table; the table is a fixed family of sources (one definition and >= 1 use per kind and spelling), not all programs; acceptance is predicted only for occurrences glas supports, elsewhere only the refusal obligations and prepare/rename agreement are checked", "4 C08, 3.10"),
 }
 NOT_YET = "check not built yet in this revision of /verif (work in progress; see DESIGN.md section 8)"
 
